@@ -134,7 +134,7 @@ static void run_case(vf::Ctx& ctx, const Fac& fac, const Spec& sp, SortRule rule
                 ctx.count("ritz_selection_checks");
                 if (!vo::within(ctx, "returned-vs-top-ritz-keys", worstk, 1e-7L))
                 {
-                    auto j = vf::J().kv("solver", FAMILY[d.family]).kv("rule", rule_name(rule)).kv("class", cls).kv("n", d.n).kv("nev", d.nev).kv("ncv", d.ncv).kv("sigma", (double) d.sigma)
+                    auto j = vf::J().kv("solver", FAMILY[d.family]).kv("rule", rule_name(rule)).kv("class", cls).kv("n", d.n).kv("nev", d.nev).kv("ncv", d.ncv).kv("sigma", (double) d.sigma).kv("scale", d.scale)
                                  .kv("info", info_name(es->info())).kv("returned", (long) ev.size()).kv("worst_key_distance_rel", worstk);
                     {
                         std::string a, b, c;
@@ -169,7 +169,7 @@ static void run_case(vf::Ctx& ctx, const Fac& fac, const Spec& sp, SortRule rule
         if (ok) ctx.maxratio(tag.empty() ? "key-mismatch/gap (ncv=n)" : "corpus:key-mismatch/gap", worst / (sp.gap / 4));
         if (miss)
         {
-            auto j = vf::J().kv("solver", FAMILY[d.family]).kv("rule", rule_name(rule)).kv("class", cls).kv("n", d.n).kv("nev", d.nev).kv("ncv", d.ncv).kv("sigma", (double) d.sigma)
+            auto j = vf::J().kv("solver", FAMILY[d.family]).kv("rule", rule_name(rule)).kv("class", cls).kv("n", d.n).kv("nev", d.nev).kv("ncv", d.ncv).kv("sigma", (double) d.sigma).kv("scale", d.scale)
                          .kv("gap_rel", sp.gap).kv("returned", (long) ev.size()).kv("worst_key_error_rel", worst).kv("restarts", (long) es->num_iterations() - 1);
             ctx.violation(tag.empty() ? std::string(FAMILY[d.family]) + "/" + rule_name(rule) + "/wrong-set" + phase : tag + "/wrong-set" + phase, j.kv("phase", phase.empty() ? "init();compute(rule)" : phase).str());
         }
@@ -221,22 +221,27 @@ static void run_case(vf::Ctx& ctx, const Fac& fac, const Spec& sp, SortRule rule
 
 static long n_explore(const vf::Ctx& ctx) { return ctx.thorough ? 60000 : 5000; }
 static long n_corpus() { return 150; }
-long vf_ncases(const vf::Ctx& ctx) { return n_explore(ctx) + n_corpus(); }
+// second corpus part: the same construction with everything (spectrum, shifts) multiplied by 1e-12..1e-4 or 1e4..1e8 - every oracle here is relative to the
+// key spread, so the statement is the same; what changes is the absolute size of the residuals that the library compares with absolute thresholds (section 4.2)
+static long n_corpus_scaled() { return 204; }
+long vf_ncases(const vf::Ctx& ctx) { return n_explore(ctx) + n_corpus() + n_corpus_scaled(); }
 
 void vf_run_case(vf::Ctx& ctx, long idx)
 {
     auto& r = ctx.rng;
     const auto fams = compiled_families();
     const bool corpus = idx >= n_explore(ctx);
-    const long ci = idx - n_explore(ctx);
+    const bool scaled = idx >= n_explore(ctx) + n_corpus();
+    const long ci = scaled ? idx - n_explore(ctx) - n_corpus() : idx - n_explore(ctx);
     const int f = fams[(size_t) ((corpus ? ci : idx) % (long) fams.size())];
     std::string tag;
-    if (corpus) { ctx.case_rng("c04_corpus", ci, true); tag = std::string("corpus/") + FSHORT[f] + "/" + std::to_string(ci); ctx.set_tag(tag); }
+    if (corpus) { ctx.case_rng(scaled ? "c04_corpus_scaled" : "c04_corpus", ci, true); tag = std::string(scaled ? "corpus/scaled/" : "corpus/") + FSHORT[f] + "/" + std::to_string(ci); ctx.set_tag(tag); }
+    const double scale = scaled ? std::pow(10.0, (double) (r.coin(0.65) ? -r.range(4, 12) : r.range(4, 8))) : 1.0;
     const bool gen = family_is_gen(f);
     Data<T> d;
     d.family = f;
     // the room class: tight (< 10), medium (10..19), roomy (>= 20) or full (ncv = n)
-    const int roomk = corpus ? (int) r.range(0, 2) : (r.coin(0.45) ? 3 : (int) r.range(0, 2));
+    const int roomk = scaled ? (r.coin(0.6) ? 3 : (int) r.range(0, 2)) : (corpus ? (int) r.range(0, 2) : (r.coin(0.45) ? 3 : (int) r.range(0, 2)));
     d.nev = (int) r.range(1, 5);
     const int base = 2 * d.nev + 1 + (gen ? 1 : 0);
     int room = roomk == 0 ? (int) r.range(0, 9) : (roomk == 1 ? (int) r.range(10, 19) : (int) r.range(20, 30));
@@ -282,6 +287,15 @@ void vf_run_case(vf::Ctx& ctx, long idx)
         sp.gap = 0;
     }
     if (!(sp.gap >= 0.005)) { ctx.count("evals"); ctx.count("skipped_no_gap"); return; }
+    if (scaled)
+    {
+        for (auto& l : lam) l *= (LD) scale;
+        D *= scale;
+        d.sigma = T((double) d.sigma * scale);
+        d.sigmai = T((double) d.sigmai * scale);
+        d.scale = scale;
+        ctx.count("scaled_corpus/1e" + std::to_string((int) std::lround(std::log10(scale))));
+    }
     sp.lam = lam;
     // wanted keys at an end of the iterated spectrum?  (only meaningful for real spectra)
     {
